@@ -332,8 +332,15 @@ func nameOf(fn *ssa.Function) string {
 
 // spawnerOf is the function that contains the go statement of a goroutine root (for a literal this is its enclosing function).
 func spawnerOf(r root) *ssa.Function {
+	p := r.Fn.Parent()
 	if r.Site != nil {
-		return r.Site.Parent()
+		p = r.Site.Parent()
 	}
-	return r.Fn.Parent()
+	// a step cut out of its caller (a helper that launches the timer loops) spawns on the caller's behalf
+	if p != nil && p.Parent() == nil {
+		if owner, chain := an.LogicalOwner(p); owner != nil && len(chain) > 0 {
+			return owner
+		}
+	}
+	return p
 }
